@@ -47,8 +47,9 @@ int __wrap_regexec(const regex_t *preg, const char *s, size_t nmatch, regmatch_t
 #define DFD0 2000
 #define MAXFD 4096
 static int nacc = 0, nsock = 0, k_acc = 0, k_connect = 0, k_soerr = 0; static long k_hup = -1;
-static struct { int rev, rk, cap, len, off, reads, readres, wlen, werr, wblock, writes, blocking; unsigned char data[4096], w[1<<17]; } K[MAXFD];
+static struct { int rev, rk, cap, len, off, reads, readres, wlen, werr, wblock, writes, nonblock, rblock; unsigned char data[4096], w[1<<17]; } K[MAXFD];
 #define KK(fd) (&K[(fd) - VFD0])
+/* a descriptor is blocking until fcntl(F_SETFL, O_NONBLOCK), as in the kernel */
 int __real_close(int fd); ssize_t __real_read(int, void *, size_t); ssize_t __real_write(int, const void *, size_t); int __real_fcntl(int fd, int cmd, ...);
 int __wrap_accept(int fd, struct sockaddr *a, socklen_t *n){ if (k_acc == 2) { printf("Y accept -1\n"); errno = EWOULDBLOCK; return -1; }
     int nfd = VFD0 + nacc++; memset(KK(nfd), 0, sizeof K[0]); printf("Y accept %d\n", nfd); memset(a, 0, sizeof(struct sockaddr_in)); a->sa_family = AF_INET; *n = sizeof(struct sockaddr_in); return nfd; }
@@ -61,24 +62,24 @@ pid_t __wrap_fork(void){ int pid = 5000 + nfork++; printf("Y fork %d\n", pid); r
 int __wrap_kill(pid_t pid, int sig){ printf("Y kill %d %d\n", (int)pid, sig); return 0; }
 pid_t __wrap_waitpid(pid_t pid, int *wstat, int opt){ printf("Y waitpid %d\n", (int)pid); if (wstat) *wstat = SIGTERM; return pid; }
 int __wrap_setsockopt(int fd, int l, int o, const void *v, socklen_t n){ return 0; }
-int __wrap_connect(int fd, const struct sockaddr *a, socklen_t n){ printf("Y connect %d\n", k_connect); if (k_connect == 0) return 0; errno = k_connect == 1 ? EINPROGRESS : ENETUNREACH; return -1; }
+int __wrap_connect(int fd, const struct sockaddr *a, socklen_t n){ printf("Y connect %d%s\n", k_connect, (!KK(fd)->nonblock) ? " BLOCKS" : ""); if (k_connect == 0) return 0; errno = k_connect == 1 ? EINPROGRESS : ENETUNREACH; return -1; }
 int __wrap_getsockopt(int fd, int l, int o, void *v, socklen_t *n){ printf("Y soerr %d\n", k_soerr); *(int *)v = k_soerr ? ECONNREFUSED : 0; return 0; }
-int __wrap_fcntl(int fd, int cmd, long arg){ if (fd >= VFD0) { if (cmd == F_GETFL) return KK(fd)->blocking ? 0 : O_NONBLOCK; if (cmd == F_SETFL) KK(fd)->blocking = !(arg & O_NONBLOCK); return 0; } return __real_fcntl(fd, cmd, arg); }
+int __wrap_fcntl(int fd, int cmd, long arg){ if (fd >= VFD0) { if (cmd == F_GETFL) return KK(fd)->nonblock ? O_NONBLOCK : 0; if (cmd == F_SETFL) KK(fd)->nonblock = !!(arg & O_NONBLOCK); return 0; } return __real_fcntl(fd, cmd, arg); }
 int __wrap_close(int fd){ if (fd >= VFD0) { printf("Y close %d\n", fd); return 0; } return __real_close(fd); }
 ssize_t __wrap_read(int fd, void *b, size_t n){ if (fd < VFD0) return __real_read(fd, b, n);
     typeof(K[0]) *k = KK(fd); k->reads++;
     if (k->reads == 1 && k->rk == 1) { k->readres = -1; errno = EIO; return -1; }
     if (k->reads == 1 && k->rk == 2) { k->readres = 0; return 0; }
-    if (k->off >= k->len) { if (k->reads == 1) k->readres = -1; errno = EAGAIN; return -1; }
+    if (k->off >= k->len) { if (k->reads == 1) k->readres = -1; if ((!k->nonblock)) k->rblock = 1; errno = EAGAIN; return -1; }   /* on a blocking descriptor the daemon would sleep here */
     size_t m = k->len - k->off; if (m > n) m = n; memcpy(b, k->data + k->off, m); k->off += m; k->readres += m; return m; }
 ssize_t __wrap_write(int fd, const void *b, size_t n){ if (fd < VFD0) return __real_write(fd, b, n);
     typeof(K[0]) *k = KK(fd); k->writes++;
     /* capacity -2: the kernel takes the first piece offered in this pass whole and has no room for a second one (a wrapped
        ring buffer is written in two pieces); the driver rewrites the recorded op to the equivalent byte count afterwards */
-    if (k->cap == -2) { if (k->writes > 1 && !k->blocking) { errno = EAGAIN; return -1; } memcpy(k->w + k->wlen, b, n); k->wlen += n; return n; }
+    if (k->cap == -2) { if (k->writes > 1 && !(!k->nonblock)) { errno = EAGAIN; return -1; } memcpy(k->w + k->wlen, b, n); k->wlen += n; return n; }
     if (k->cap < 0) { if (fd >= DFD0) { memcpy(k->w + k->wlen, b, n); k->wlen += n; } k->werr = 1; errno = EPIPE; return -1; }
     size_t m = n;
-    if (k->blocking) { if ((size_t)k->cap < n) { k->wblock = 1; k->cap = 0; } else k->cap -= n; }   /* capacity is per pass, a wrapped cbuf issues two calls */
+    if ((!k->nonblock)) { if ((size_t)k->cap < n) { k->wblock = 1; k->cap = 0; } else k->cap -= n; }   /* capacity is per pass, a wrapped cbuf issues two calls */
     else { if ((size_t)k->cap == 0) { errno = EAGAIN; return -1; } if (m > (size_t)k->cap) m = k->cap; k->cap -= m; }
     memcpy(k->w + k->wlen, b, m); k->wlen += m; return m; }
 int __real_poll(struct pollfd *fds, nfds_t n, int tmo);
@@ -166,7 +167,7 @@ static int signalled = 0;
 static int read_op(void){
     if (!fgets(line, sizeof line, stdin)) { fflush(stdout); _exit(0); }
     char op = line[0];
-    EACHK(i) K[i].rev = 0; K[i].rk = 0; K[i].cap = 1 << 30; K[i].len = K[i].off = K[i].reads = K[i].readres = K[i].wlen = K[i].werr = K[i].wblock = K[i].writes = 0; }
+    EACHK(i) K[i].rev = 0; K[i].rk = 0; K[i].cap = 1 << 30; K[i].len = K[i].off = K[i].reads = K[i].readres = K[i].wlen = K[i].werr = K[i].wblock = K[i].writes = K[i].rblock = 0; }
     k_acc = 0; k_hup = -1;
     char *tok = strtok(line + 1, " \n");
     if (tok) { long now = atol(tok); vt_us = 1000000000L + now;
@@ -181,7 +182,7 @@ static int read_op(void){
 static void end_of_pass(struct timeval *tv){
     logrx = 0;
     EACHK(i)
-        if (K[i].reads) printf("Y read %d %d\n", VFD0 + i, K[i].readres);
+        if (K[i].reads) printf("Y read %d %d%s\n", VFD0 + i, K[i].readres, K[i].rblock ? " BLOCKS" : "");
         if (K[i].writes) { printf("Y write %d ", VFD0 + i); hexout(K[i].w, K[i].wlen); printf(" %s%s\n", K[i].werr ? "E" : "ok", K[i].wblock ? " BLOCKS" : ""); } }
     static struct timeval none; timerclear(&none);
     dump(last_op == 'P' ? (tv ? tv : &none) : NULL); printf(".\n"); fflush(stdout);
